@@ -28,7 +28,7 @@ def P(pid, level, **kw):
     PROPS[pid] = d
 
 
-P("C01", "proof", native=True, kani={"timeout": "600s", "compile_clause": True}, rac=["emit"],
+P("C01", "proof", native=True, kani={"timeout": "600s", "compile_clause": True}, rac=["emit", "structure"],
   unbounded="native family rand_diff: 48 (thorough 240) RANDOM programs under join! / try_join! / join_spawn! / try_join_spawn! (1-3 branches x 1-3 steps, operators from the Option pool, plain or block operands, captures reading or reassigning names, let / let mut, failing initial values, optional handler) x 48 (400) sampled inputs against the staged reference, value and evaluation trace; all operands, all 22 operators: spelling -> Combinator -> constructor -> emitted tokens == documented call",
   bounded="operator adjacency / chain length (Kani programs)",
   not_decided="left-to-right composition for chains outside the enumerated family; that parse_until applies the table (C14)")
